@@ -228,9 +228,17 @@ def _check_arith(r, mode):
     call = (lambda: f(other, x)) if refl else (lambda: f(x, other))
     classes = ['op:' + r['op'], 'other:' + o, 'reflected' if refl else 'direct']
     if expect_error:
-        # (a container of another kind must give TypeError; for foreign types any refusal by TypeError/ValueError counts)
-        must_raise(f'unsupported-operand:{o}', call, exc=(TypeError,) if o == 'other_kind' else (TypeError, ValueError))
-        return {'nontrivial': False, 'classes': classes + ['rejected']}
+        if o == 'other_kind':
+            # a container of another kind cannot be combined component-wise: any refusal counts
+            must_raise(f'unsupported-operand:{o}', call, exc=(TypeError, ValueError))
+            return {'nontrivial': False, 'classes': classes + ['rejected']}
+        # foreign operand types (str, None, list, dict): the property does not say what must happen (a 0-d integer
+        # container times a str even "works" through Python's sequence repetition); recorded, not judged
+        try:
+            call()
+            return {'nontrivial': False, 'classes': classes + ['foreign_operand_accepted']}
+        except Exception as e:  # noqa: BLE001
+            return {'nontrivial': False, 'classes': classes + ['foreign_operand_rejected:' + type(e).__name__]}
     res = must_not_raise(f'arith:{r["op"]}:{o}:{"r" if refl else "d"}', call)
     if type(res) is not type(x):
         raise Violation('arith-type', f'{type(res).__name__} returned for {kind} {r["op"]} {o}')
